@@ -2031,6 +2031,31 @@ def _dedupe_evidence0(idx, f, fixed):
     return None
 
 
+def _other_uniqueness_mechanism(idx, f):
+    """A counting dictionary (`d[x] = d.get(x, 0) + 1` ... `d[x] > 1`) or a set of names taken so far (`if x in taken: ...` /
+    `taken.add(x)`) in f or a helper it calls: evidence that *some* uniqueness test exists."""
+    for g in _closure(idx, f):
+        adds, tests, counts, ctests = set(), set(), set(), set()
+        for n in ast.walk(g.node):
+            if isinstance(n, ast.Call) and isinstance(n.func, ast.Attribute) and n.func.attr == "add" and isinstance(n.func.value, ast.Name):
+                adds.add(n.func.value.id)
+            if isinstance(n, ast.Compare) and len(n.ops) == 1 and isinstance(n.ops[0], (ast.In, ast.NotIn)) and isinstance(n.comparators[0], ast.Name):
+                tests.add(n.comparators[0].id)
+            if isinstance(n, ast.Assign) and len(n.targets) == 1 and isinstance(n.targets[0], ast.Subscript) and \
+                    isinstance(n.targets[0].value, ast.Name) and isinstance(n.value, ast.BinOp) and isinstance(n.value.op, ast.Add) and \
+                    any(isinstance(x, ast.Call) and isinstance(x.func, ast.Attribute) and x.func.attr == "get" and
+                        isinstance(x.func.value, ast.Name) and x.func.value.id == n.targets[0].value.id for x in ast.walk(n.value)):
+                counts.add(n.targets[0].value.id)
+            if isinstance(n, ast.Compare) and len(n.ops) == 1 and isinstance(n.left, ast.Subscript) and isinstance(n.left.value, ast.Name) and \
+                    isinstance(n.comparators[0], ast.Constant) and n.comparators[0].value in (1, 2):
+                ctests.add(n.left.value.id)
+        if adds & tests:
+            return f"a set of names taken so far (`{sorted(adds & tests)[0]}`) in {g.qual}"
+        if counts & ctests:
+            return f"a dictionary that counts the uses of every name (`{sorted(counts & ctests)[0]}`) in {g.qual}"
+    return None
+
+
 def computed_submodule_names(rep, idx):
     """amaranth's Module refuses a second submodule of the same name (NameError).  A name computed from a *path* by joining its
     parts is not an injective encoding -- ("a", "b") and ("a__b",), ("x", 0) and ("x", "0"), or a path that spells one of the
@@ -2090,8 +2115,12 @@ def computed_submodule_names(rep, idx):
                     alt = True
                 if isinstance(x, ast.IfExp) and (positional(x.body) or positional(x.orelse)):
                     alt = True                              # the name itself is a choice between the joined and the positional one
+        other = _other_uniqueness_mechanism(idx, f) if ev is None else None
         if not joins:
             rep.unk("C19.15", f.site, what, verdict[1])
+        elif ev is None and other is not None:
+            rep.unk("C19.15", f.site, what, f"the joined names go through {other}: a uniqueness mechanism of another shape than the ones the rule "
+                    "re-derives (count / set-size over the list of all names); whether it covers every name of the module is not decided")
         elif ev is None:
             rep.bad("C19.15", f.site, what,
                     "the name encodes a path by joining its parts, which is not injective (('a', 'b') and ('a__b',) -- or an index 0 and a part "
